@@ -87,7 +87,8 @@ def make_harness(kind, op, base=1700000000, traced=False):
             other_version = choose(ver_sel, 0, 1) == 1 if not v3 else False
             disco_off = choose(disco_sel, 0, 1) if v3 else 0
             # reference run with an honest agent and a frozen clock -> the data the caller must get
-            saved_time = util.time
+            from engine.core import seam
+            saved_time = seam(util, "time")
             try:
                 util.time = Clock(base, [])
                 ref_world = C.World(kind, Database(UNIVERSE), pin_ids=False)
